@@ -719,4 +719,87 @@ theorem Inv.tick_outcome {pos : Nat} {q : List Trxd.TxMsg} {g : Ghost} (h : Inv 
       rw [inj p hp p' hp' he.symm]; exact hc
     · intro hc; exact ⟨p, ⟨hp, hc⟩, rfl⟩
 
+/-- `classify` in plain arithmetic -/
+theorem classify_arith (fn : Nat) (msg : Trxd.TxMsg) (m : Int) (hm : msg.fn = some m) :
+    (classify fn msg = .emit ↔ m = fn) ∧
+    (classify fn msg = .stale ↔ m ≠ fn ∧ ((fn : Int) - m) % 2715648 < 1357824) ∧
+    (classify fn msg = .wait ↔ m ≠ fn ∧ ((fn : Int) - m) % 2715648 ≥ 1357824) := by
+  rw [classify_spec, hm]
+  simp only [verdict]
+  by_cases h1 : m = (fn : Int)
+  · simp [h1]
+  · by_cases h2 : ((fn : Int) - m) % 2715648 < 1357824
+    · simp [h1, h2]
+    · simp [h1, h2]; omega
+
+/-- a tick that completes, seen from a running transceiver `j` -/
+theorem ghost_tick_complete (w0 : World) (ops : List Op) (j : Nat) (h0 : queueOf w0 j = []) {fn : Nat}
+    (hr : (run w0 ops).1.clkRunning = true) (hs : (run w0 ops).1.clkSrc = some fn)
+    (hrun : runningOf (run w0 ops).1 j = true) (hx : (step (run w0 ops).1 .tick).exc = none) :
+    ghost w0 (ops ++ [Op.tick]) j =
+      ⟨tickIds fn ((ghost w0 ops j).ids.zip (queueOf (run w0 ops).1 j)),
+       (ghost w0 ops j).log ++ tickEvents fn ((ghost w0 ops j).ids.zip (queueOf (run w0 ops).1 j))⟩ ∧
+    queueOf (run w0 (ops ++ [Op.tick])).1 j = waitPart fn (queueOf (run w0 ops).1 j) ∧
+    (run w0 (ops ++ [Op.tick])).1.clkSrc = some ((fn + 1) % Gen.World.hyperframe) := by
+  have hq := tick_complete_queue hr hs hx j
+  have hq1 : queueOf (step (run w0 ops).1 .tick).world j = waitPart fn (queueOf (run w0 ops).1 j) := by
+    have := hq.1
+    simp only [tickedQueue, hrun, if_true] at this
+    exact this
+  refine ⟨?_, by rw [run_snoc]; exact hq1, by rw [run_snoc]; exact hq.2⟩
+  rw [ghost_snoc]
+  exact ghostStep_tick_running (ghost_inv w0 ops j h0).lock hs hq1
+
+theorem mem_zip_after_tick {fn : Nat} {ids : List Nat} {q : List Trxd.TxMsg} (hl : ids.length = q.length)
+    {p : Nat × Trxd.TxMsg} (hp : p ∈ ids.zip q) (hc : classify fn p.2 = .wait) :
+    p ∈ (tickIds fn (ids.zip q)).zip (waitPart fn q) := by
+  have hsnd : ((ids.zip q).filter (fun p => classify fn p.2 == .wait)).map Prod.snd = waitPart fn q :=
+    zip_filter_snd (fun m => classify fn m == .wait) ids q hl
+  rw [← hsnd, tickIds, zip_map_fst_snd, List.mem_filter]
+  exact ⟨hp, by rw [hc]; rfl⟩
+
+/-- a completed tick seen from the queued message `p` of the running transceiver `j` -/
+theorem ghost_tick_msg (w0 : World) (ops : List Op) (j : Nat) (h0 : queueOf w0 j = []) {fn : Nat}
+    (hr : (run w0 ops).1.clkRunning = true) (hs : (run w0 ops).1.clkSrc = some fn)
+    (hrun : runningOf (run w0 ops).1 j = true) (hx : (step (run w0 ops).1 .tick).exc = none)
+    {p : Nat × Trxd.TxMsg} (hp : p ∈ (ghost w0 ops j).ids.zip (queueOf (run w0 ops).1 j)) :
+    (Event.emitted p.1 fn ∈ (ghost w0 (ops ++ [Op.tick]) j).log ↔ classify fn p.2 = .emit) ∧
+    (Event.stale p.1 fn ∈ (ghost w0 (ops ++ [Op.tick]) j).log ↔ classify fn p.2 = .stale) ∧
+    (p.1 ∈ (ghost w0 (ops ++ [Op.tick]) j).ids ↔ classify fn p.2 = .wait) ∧
+    (classify fn p.2 = .wait →
+      p ∈ (ghost w0 (ops ++ [Op.tick]) j).ids.zip (queueOf (run w0 (ops ++ [Op.tick])).1 j)) := by
+  obtain ⟨hg, hq, -⟩ := ghost_tick_complete w0 ops j h0 hr hs hrun hx
+  have hinv := ghost_inv w0 ops j h0
+  obtain ⟨h1, h2, h3⟩ := hinv.tick_outcome fn hp
+  rw [hg, hq]
+  exact ⟨h1, h2, h3, mem_zip_after_tick hinv.lock hp⟩
+
+/-- with at most one outcome per id, two outcome events of the same id are the same event -/
+theorem outcome_event_unique {μ : Type} : ∀ (log : List (Event μ)), (outIds log).Nodup →
+    ∀ e1 ∈ log, ∀ e2 ∈ log, ∀ id, e1.outId? = some id → e2.outId? = some id → e1 = e2 := by
+  intro log
+  induction log with
+  | nil => intro _ e1 h1; cases h1
+  | cons e l ih =>
+    intro hnd e1 h1 e2 h2 id ho1 ho2
+    have hmem : ∀ e' ∈ l, e'.outId? = some id → id ∈ outIds l :=
+      fun e' he' ho => List.mem_filterMap.mpr ⟨e', he', ho⟩
+    have hnd' : (outIds l).Nodup := by
+      unfold outIds at hnd ⊢
+      rw [List.filterMap_cons] at hnd
+      split at hnd
+      · exact hnd
+      · exact (List.nodup_cons.mp hnd).2
+    rcases List.mem_cons.mp h1 with rfl | h1' <;> rcases List.mem_cons.mp h2 with rfl | h2'
+    · rfl
+    · exfalso
+      unfold outIds at hnd
+      rw [List.filterMap_cons, ho1] at hnd
+      exact (List.nodup_cons.mp hnd).1 (hmem e2 h2' ho2)
+    · exfalso
+      unfold outIds at hnd
+      rw [List.filterMap_cons, ho2] at hnd
+      exact (List.nodup_cons.mp hnd).1 (hmem e1 h1' ho1)
+    · exact ih hnd' e1 h1' e2 h2' id ho1 ho2
+
 end OsmoVerif.World
